@@ -105,3 +105,14 @@ NOT_DECIDED = {'C04': ['that build_decision_evaluator collects the reference lis
                        'boxed expression evaluators of builders/mod.rs (their scope half is under contract in unit purity)',
                        'evaluate_invocable dispatch by name; independence of input entries outside the requirement closure beyond "they do not enter the logic context" (the callees\' own independence is the induction hypothesis)',
                        'what two requirements that produce the same name do to each other (later writer wins as coded; the property does not say)']}
+
+BOUNDED = {
+    'C04': [{'name': 'requirement-graphs-differential', 'script': 'reqgraphdiff.py', 'args': [], 'thorough_args': ['--size', 'thorough'], 'seeded': True,
+             'functions': ['dmntk_model::parse', 'ModelEvaluator::new / evaluate_invocable', 'builders::decision / business_knowledge_model / decision_service / mod (boxed context, invocation, literal expression)'],
+             'bound': 'quick 60 (thorough 600) generated acyclic requirement graphs: 3 number inputs, 3 knowledge models requiring one another, 7 decisions (literal expression, boxed context or boxed invocation) over random '
+                      'subsets of the inputs, the earlier decisions (diamonds, a decision required directly and through a service), the knowledge models and the earlier single-output decision services called as functions, '
+                      '2 decision services (one or two output decisions, encapsulated decisions, input data, optionally an input decision); every decision and service invoked by name with the inputs alone and with the inputs '
+                      'plus entries whose names occur in no requirement closure (services with an input decision: with its value supplied), about 1 050 results against a reference evaluation in topological order '
+                      '(integers with distinct prime weights). Not generated: decision tables, relations and function definitions as decision logic, typed conversions, name clashes between requirements, '
+                      'an input entry named like a required decision (it overrides that decision: DMN TCK 0085 pins this)'}],
+}
